@@ -110,18 +110,21 @@ Tab(mt, PP, CC, eps) ==
   [i \in 1..Len(PP) |->
      LET dr == DRow(mt, PP[i], CC)
          fr == FxRow(dr)
-     IN [fx |-> fr, mn |-> KMin(fr), adm |-> AdmRow(dr, fr, eps)]]
+     IN [pt |-> PP[i], fx |-> fr, mn |-> KMin(fr), adm |-> AdmRow(dr, fr, eps)]]
 
 MinDFx(mt, x, CC) == KMin(FxRow(DRow(mt, x, CC)))
 Adm(mt, x, CC, eps) == LET dr == DRow(mt, x, CC) IN AdmRow(dr, FxRow(dr), eps)
 
-\* all assignments of the observations (one admissible centroid each), from a table
-AsgsT(tab) ==
-  LET nn   == Len(tab)
-      tied == {i \in 1..nn : Cardinality(tab[i].adm) > 1}
-      base == [i \in 1..nn |-> CHOOSE j \in tab[i].adm : TRUE]
-  IN {[i \in 1..nn |-> IF i \in tied THEN g[i] ELSE base[i]] :
-        g \in {h \in [tied -> 1..Len(tab[1].fx)] : \A i \in tied : h[i] \in tab[i].adm}}
+\* all assignments of the observations (one admissible centroid each), from a table:
+\* the product of the arg-min sets, built observation by observation.  Equal observations that are
+\* adjacent in the data are interchangeable (update, counts and cost depend on the multiset only), so
+\* of the assignments that differ by exchanging them only the one with non-decreasing labels is built.
+RECURSIVE AsgsTo(_, _)
+AsgsTo(tab, i) ==
+  IF i = 0 THEN {<<>>}
+  ELSE UNION {{Append(s, j) : j \in {jj \in tab[i].adm : i = 1 \/ tab[i].pt # tab[i - 1].pt \/ jj >= s[i - 1]}} :
+                s \in AsgsTo(tab, i - 1)}
+AsgsT(tab) == AsgsTo(tab, Len(tab))
 Asgs(mt, XX, CC, eps) == AsgsT(Tab(mt, XX, CC, eps))
 
 \* within-cluster cost  sum_i min_j rdist(x_i, c_j)  in fixed point (each term rounded down:
